@@ -101,6 +101,48 @@ def _decorator_names(fn: ast.FunctionDef) -> List[str]:
 NORMAL_FORM_BY_DEFAULT = True
 
 
+class NFDict(dict):
+    """name -> FunctionDef; reads give the function in normal form (see Repo.own_method), `.raw` the definitions as written.
+    A function that is being normalised is handed out as written to whoever asks for it meanwhile (mutual references)."""
+
+    def __init__(self, repo, ci):
+        super().__init__()
+        self._repo, self._ci = repo, ci
+        self._nf = {}
+        self._busy = set()
+
+    @property
+    def raw(self):
+        return {k: dict.__getitem__(self, k) for k in dict.keys(self)}
+
+    def _norm(self, k, v):
+        if not NORMAL_FORM_BY_DEFAULT or k in self._busy:
+            return v
+        if k not in self._nf or self._nf[k][0] is not v:
+            self._busy.add(k)
+            try:
+                from . import inline
+                try:
+                    self._nf[k] = (v, inline.normalize(self._repo, self._ci, v))
+                except Exception:
+                    self._nf[k] = (v, v)
+            finally:
+                self._busy.discard(k)
+        return self._nf[k][1]
+
+    def __getitem__(self, k):
+        return self._norm(k, dict.__getitem__(self, k))
+
+    def get(self, k, default=None):
+        return self._norm(k, dict.__getitem__(self, k)) if dict.__contains__(self, k) else default
+
+    def items(self):
+        return [(k, self[k]) for k in dict.keys(self)]
+
+    def values(self):
+        return [self[k] for k in dict.keys(self)]
+
+
 class Repo:
     def __init__(self, root: Optional[Path] = None):
         self.root = Path(root) if root else repo_root()
@@ -145,6 +187,16 @@ class Repo:
         # members installed by code (factory products, partialmethod, setattr loops over constant tables)
         from . import synth
         self.synthesized = synth.synthesize(self)
+        # property getters / setters are read in normal form wherever a rule takes them from the class model
+        for cs in list(self.classes.values()):
+            for c in cs:
+                if not isinstance(c.getters, NFDict):
+                    g, st = NFDict(self, c), NFDict(self, c)
+                    for k, v in c.getters.items():
+                        dict.__setitem__(g, k, v)
+                    for k, v in c.setters.items():
+                        dict.__setitem__(st, k, v)
+                    c.getters, c.setters = g, st
 
     def _index_class(self, sf: SourceFile, node: ast.ClassDef, outer: Optional[ClassInfo]):
         qual = f"{outer.qualname}.{node.name}" if outer else node.name
